@@ -128,6 +128,16 @@ class Prop(PropBase):
         'what main itself wrote; exact stdout/stderr equality is checked at --log 50 only',
         'CPython turns main()\'s return value / an escaping SystemExit into the process status '
         '(modelled as process_status; checked on real child processes for a sample)',
+        'Tie B (tools/py2coq_c18.py -> Gen/GenC18.v, equalities in Proofs/GenC18Proofs.v): the '
+        'translator drops docstrings, logger.* calls and annotations as effect-free; types '
+        'get_parsed_context(args) as option (list string) -> option dict (json: res); reads '
+        's.partition(c) as partition_first with the separator component only ever tested; leaves '
+        'json.loads abstract (Section variable, instantiated with the model loader); gives lists '
+        'and dicts value semantics and therefore rejects any read of an in-place-mutated container '
+        'before its last mutation. For cli.main it abstracts the try body to the exception it '
+        'raised, drops sys.stdout/sys.stderr writes and traceback.print_exc in handlers, takes '
+        'signal.SIGINT = 2, the Python class lattice as the table raised_isinstance, and maps '
+        'argparse dests to model fields by its DEST table (py_dir default = config.cwd)',
     ]
 
     def generate(self, rng, n, tier):
